@@ -202,6 +202,9 @@ class Walker:
         n = self.nan_array(node, env)
         if n is not None:
             return n
+        if _fn(node) == "np.zeros_like" and len(node.args) == 1 and not node.keywords and isinstance(node.args[0], ast.Name) \
+                and node.args[0].id in env and env[node.args[0].id].kind == "A":
+            return V("A", "0", owned=True)
         if _fn(node) == "len" and len(node.args) == 1 and isinstance(node.args[0], ast.Name):
             nm = node.args[0].id
             if nm in getattr(self, "array_params", ()) and env.get(nm) is self.param_vals.get(nm):
@@ -228,7 +231,8 @@ class Walker:
             return V("O", "(if %s then (Some %s) else %s)" % (mt, new.text, old.text), owned=True)
         return V("A", "(if %s then %s else %s)" % (mt, new.text, old.text), owned=True)
 
-    def merge(self, cond_text, e1, e2):
+    def merge(self, cond_text, e1, e2, fmt=None):
+        fmt = fmt or (lambda t1, t2: "(if %s then %s else %s)" % (cond_text, t1, t2))
         out = {}
         for n in e1:
             if n not in e2:
@@ -240,11 +244,11 @@ class Walker:
                 continue
             if a.kind != b.kind:
                 if {a.kind, b.kind} == {"A", "O"}:
-                    out[n] = V("O", "(if %s then %s else %s)" % (cond_text, self.lift(a), self.lift(b)), owned=a.owned and b.owned)
+                    out[n] = V("O", fmt(self.lift(a), self.lift(b)), owned=a.owned and b.owned)
                 continue
             if a.kind not in ("S", "A", "O", "B", "SB"):
                 continue
-            out[n] = V(a.kind, "(if %s then %s else %s)" % (cond_text, a.text, b.text), owned=a.owned and b.owned)
+            out[n] = V(a.kind, fmt(a.text, b.text), owned=a.owned and b.owned)
         return out
 
     @staticmethod
@@ -430,6 +434,218 @@ class Z0Walker(Walker):
 
 
 # ================================================================================================
+# estimateFootprint
+
+
+class _Sub(ast.NodeTransformer):
+    """mxy[0] -> mxy__0, grid_domain[2] -> grid_domain__2 (names the environment defines)"""
+
+    def visit_Subscript(self, node):
+        self.generic_visit(node)
+        if isinstance(node.value, ast.Name) and node.value.id in ("mxy", "grid_domain") and isinstance(node.slice, ast.Constant) \
+                and type(node.slice.value) is int:
+            return ast.copy_location(ast.Name(id="%s__%d" % (node.value.id, node.slice.value), ctx=ast.Load()), node)
+        return node
+
+
+class FpWalker(Walker):
+    PARAMS = ["zm", "z0", "ws", "ustar", "mo_len", "sigma_v", "grid_domain", "grid_res", "mxy", "wd"]
+    ATOMS = {"zm": "(p_zm (a_p a))", "z0": "(p_z0 (a_p a))", "ws": "(p_ws (a_p a))", "ustar": "(p_ustar (a_p a))",
+             "mo_len": "(p_L (a_p a))", "sigma_v": "(p_sv (a_p a))", "grid_res": "(a_res a)",
+             "mxy__0": "(a_mx a)", "mxy__1": "(a_my a)", "grid_domain__0": "(a_xmin a)", "grid_domain__1": "(a_xmax a)",
+             "grid_domain__2": "(a_ymin a)", "grid_domain__3": "(a_ymax a)"}
+
+    def __init__(self):
+        super().__init__("estimateFootprint")
+        self.cols = self.rows = None
+        self.exit = None
+        self.ret = None
+
+    def run(self, fn):
+        args = [a.arg for a in fn.args.args]
+        if args != self.PARAMS or fn.args.vararg or fn.args.kwarg or fn.args.kwonlyargs or fn.args.posonlyargs:
+            raise TranslateError("estimateFootprint: parameter list %r is not %r" % (args, self.PARAMS))
+        if not (len(fn.args.defaults) == 1 and isinstance(fn.args.defaults[0], ast.Constant) and fn.args.defaults[0].value is None) or fn.decorator_list:
+            raise TranslateError("estimateFootprint: defaults / decorators changed")
+        fn = _Sub().visit(fn)
+        env = {n: V("S", t) for n, t in self.ATOMS.items()}
+        env["grid_domain"] = V("DOM")
+        env["mxy"] = V("PARAM")
+        env["wd"] = V("OPT")
+        self.block(fn.body, env, top=True)
+        if self.ret is None:
+            raise TranslateError("estimateFootprint: no final return")
+        if self.cols is None:
+            raise TranslateError("estimateFootprint: no np.meshgrid of two np.arange found")
+
+    # ---- pieces
+    def arange(self, node, env):
+        if isinstance(node, ast.Name) and node.id in env and env[node.id].kind == "VEC":
+            return env[node.id]
+        if _fn(node) == "np.arange" and len(node.args) == 3 and not node.keywords:
+            vs = [self.real(a, env) for a in node.args]
+            if any(v.kind != "S" for v in vs):
+                raise TranslateError("estimateFootprint: np.arange of arrays")
+            return V("VEC", extra=tuple(v.text for v in vs))
+        return None
+
+    def string(self, node, env):
+        if isinstance(node, ast.Constant) and isinstance(node.value, str):
+            return True
+        if isinstance(node, ast.Name) and node.id in env and env[node.id].kind == "STR":
+            return True
+        if isinstance(node, ast.BinOp) and isinstance(node.op, ast.Add):
+            return self.string(node.left, env) and self.string(node.right, env)
+        if isinstance(node, ast.JoinedStr):
+            return True
+        if isinstance(node, ast.Call) and isinstance(node.func, ast.Attribute) and node.func.attr == "format" and self.string(node.func.value, env):
+            for a in list(node.args) + [k.value for k in node.keywords]:
+                if not (isinstance(a, ast.Name) and a.id in env):
+                    raise TranslateError("estimateFootprint: message argument %s" % ast.unparse(a))
+            return True
+        return False
+
+    def triple(self, node, env):
+        if not (isinstance(node, ast.Tuple) and len(node.elts) == 3):
+            raise TranslateError("estimateFootprint: return %s is not a triple" % ast.unparse(node))
+        out = []
+        for e in node.elts:
+            v = self.value(e, env)
+            if v.kind not in ("A", "S"):
+                raise TranslateError("estimateFootprint: returned %s is a %s value" % (ast.unparse(e), v.kind))
+            out.append(v.text)
+        return "(%s, %s, %s)" % tuple(out)
+
+    def assign(self, t, value, env, new):
+        """one (target, value) pair; `new` collects bindings of a simultaneous assignment"""
+        if isinstance(t, ast.Name):
+            if t.id in self.PARAMS or t.id in self.ATOMS:
+                raise TranslateError("estimateFootprint: parameter %s re-bound" % t.id)
+            if isinstance(value, ast.AST):
+                vec = self.arange(value, env) if _fn(value) == "np.arange" else None
+                if vec is not None:
+                    new[t.id] = vec
+                elif self.string(value, env):
+                    new[t.id] = V("STR")
+                else:
+                    new[t.id] = self.value(value, env)
+            else:
+                new[t.id] = value
+            self.count("assignment")
+        else:
+            raise TranslateError("estimateFootprint: assignment target %s" % ast.unparse(t))
+
+    def block(self, stmts, env, top=False):
+        for st in stmts:
+            if isinstance(st, ast.Expr) and isinstance(st.value, ast.Constant) and isinstance(st.value.value, str):
+                continue
+            if self.ret is not None:
+                raise TranslateError("estimateFootprint: statement after the final return")
+            if isinstance(st, ast.Assign):
+                if len(st.targets) != 1:
+                    raise TranslateError("estimateFootprint: chained assignment")
+                t, v = st.targets[0], st.value
+                if isinstance(t, ast.Tuple):
+                    names = t.elts
+                    if isinstance(v, ast.Tuple) and len(v.elts) == len(names):
+                        new = {}
+                        for a_, b_ in zip(names, v.elts):
+                            self.assign(a_, b_, env, new)
+                        env.update(new)
+                    elif len(names) == 4 and ((_fn(v) in ("tuple", "list") and len(v.args) == 1 and isinstance(v.args[0], ast.Name) and v.args[0].id == "grid_domain")
+                                              or (isinstance(v, ast.Name) and v.id == "grid_domain")) and env.get("grid_domain") is not None and env["grid_domain"].kind == "DOM":
+                        new = {}
+                        for k_, a_ in enumerate(names):
+                            self.assign(a_, V("S", self.ATOMS["grid_domain__%d" % k_]), env, new)
+                        env.update(new)
+                        self.count("domain unpacking")
+                    elif len(names) == 2 and _fn(v) == "np.meshgrid" and len(v.args) == 2 and \
+                            {k_.arg: ast.unparse(k_.value) for k_ in v.keywords} in ({}, {"indexing": "'xy'"}):
+                        if not top or self.cols is not None:
+                            raise TranslateError("estimateFootprint: a second / conditional np.meshgrid")
+                        ax, ay = self.arange(v.args[0], env), self.arange(v.args[1], env)
+                        if ax is None or ay is None:
+                            raise TranslateError("estimateFootprint: np.meshgrid arguments are not np.arange(start, stop, step)")
+                        self.cols, self.rows = ax.extra, ay.extra
+                        new = {}
+                        self.assign(names[0], V("A", "(arange_nth %s %s j)" % (ax.extra[0], ax.extra[2]), owned=True), env, new)
+                        self.assign(names[1], V("A", "(arange_nth %s %s i)" % (ay.extra[0], ay.extra[2]), owned=True), env, new)
+                        env.update(new)
+                        self.count("grid construction")
+                    else:
+                        raise TranslateError("estimateFootprint: tuple assignment `%s`" % ast.unparse(st))
+                elif isinstance(t, ast.Subscript) and isinstance(t.value, ast.Name):
+                    env[t.value.id] = self.masked_store(t.value.id, t.slice, v, env)
+                    self.count("masked store")
+                else:
+                    new = {}
+                    self.assign(t, v, env, new)
+                    env.update(new)
+            elif isinstance(st, ast.If):
+                test = st.test
+                if isinstance(test, ast.Compare) and len(test.ops) == 1 and isinstance(test.ops[0], (ast.Is, ast.IsNot)) \
+                        and isinstance(test.left, ast.Name) and test.left.id == "wd" and isinstance(test.comparators[0], ast.Constant) \
+                        and test.comparators[0].value is None and env["wd"].kind == "OPT":
+                    e_none, e_some = self.fork(env), self.fork(env)
+                    e_some["wd"] = V("S", "wdv")
+                    b_none, b_some = (st.body, st.orelse) if isinstance(test.ops[0], ast.Is) else (st.orelse, st.body)
+                    self.block(b_none, e_none)
+                    self.block(b_some, e_some)
+                    if self.ret is not None:
+                        raise TranslateError("estimateFootprint: return inside a branch")
+                    e_some["wd"] = env["wd"]
+                    m = self.merge(None, e_none, e_some, fmt=lambda t1, t2: "(match a_wd a with None => %s | Some wdv => %s end)" % (t1, t2))
+                    env.clear()
+                    env.update(m)
+                    self.count("branch on wd is None")
+                    continue
+                tt, arr = self.boolean(test, env)
+                if arr:
+                    raise TranslateError("estimateFootprint: `if` on an array")
+                if top and not st.orelse and st.body and isinstance(st.body[-1], ast.Return) and st.body[-1].value is not None:
+                    if self.exit is not None:
+                        raise TranslateError("estimateFootprint: a second early exit")
+                    le = self.fork(env)
+                    warns = 0
+                    for b in st.body[:-1]:
+                        if isinstance(b, ast.Assign) and len(b.targets) == 1 and isinstance(b.targets[0], ast.Name) and self.string(b.value, le) \
+                                and (b.targets[0].id not in le or le[b.targets[0].id].kind == "STR"):
+                            le[b.targets[0].id] = V("STR")
+                        elif isinstance(b, ast.Expr) and _fn(b.value) == "warnings.warn" and len(b.value.args) == 1 and self.string(b.value.args[0], le):
+                            warns += 1
+                        else:
+                            raise TranslateError("estimateFootprint: statement `%s` on the early-exit path" % ast.unparse(b).splitlines()[0])
+                    self.exit = ("(if %s then true else false)" % tt, "true" if warns == 1 else "false", self.triple(st.body[-1].value, le))
+                    self.count("early exit")
+                    continue
+                e1, e2 = self.fork(env), self.fork(env)
+                self.block(st.body, e1)
+                self.block(st.orelse, e2)
+                if self.ret is not None:
+                    raise TranslateError("estimateFootprint: return inside a branch")
+                m = self.merge(tt, e1, e2)
+                env.clear()
+                env.update(m)
+                self.count("scalar branch")
+            elif isinstance(st, ast.Return):
+                if not top or st.value is None:
+                    raise TranslateError("estimateFootprint: return")
+                self.ret = self.triple(st.value, env)
+                self.count("return")
+            else:
+                raise TranslateError("estimateFootprint: statement `%s` not in the accepted syntax" % ast.unparse(st).splitlines()[0])
+
+    def coq(self):
+        ex = self.exit or ("false", "false", "(0, 0, 0)")
+        return ("Definition gen_fp_desc : fpdesc := {|\n"
+                "  fd_cols := fun a : fpargs => (%s, %s, %s);\n  fd_rows := fun a : fpargs => (%s, %s, %s);\n"
+                "  fd_exit := fun a : fpargs => %s;\n  fd_exit_warns := %s;\n"
+                "  fd_exit_ret := fun (a : fpargs) (i j : nat) => %s;\n"
+                "  fd_ret := fun (Gamma : R -> R) (a : fpargs) (i j : nat) => %s\n|}.\n"
+                % (self.cols + self.rows + (ex[0], ex[1], ex[2], self.ret)))
+
+
+# ================================================================================================
 
 
 def translate(path=None):
@@ -443,7 +659,9 @@ def translate(path=None):
     head = ("(* generated by harness/py2coq_km.py from %s *)\n"
             "From Coq Require Import Reals List ZArith Bool.\nFrom BL Require Import Model.KM Model.KMDesc.\n"
             "From Gen Require Import GenKMHelp.\nImport ListNotations.\nOpen Scope R_scope.\n\n" % os.path.basename(path))
-    return head + z.coq(), {"estimateZ0": z.notes}
+    f = FpWalker()
+    f.run(py2coq.find_function(tree, "estimateFootprint"))
+    return head + z.coq() + "\n" + f.coq(), {"estimateZ0": z.notes, "estimateFootprint": f.notes}
 
 
 TRUSTED = [
